@@ -178,6 +178,7 @@ class Check:
                     "trusted_base": [], "known_findings": [], "disagreements": 0}
         self.assumptions = []
         self.violations = []       # (what, replay_path, found_input: bool)
+        self.replay_payload = None  # set by `--replay`: the check runs on the recorded input only, evidence is not rewritten
         self.broken = []           # names of theorems / streams that no longer check
         self.known = []
         self._impl = None
@@ -262,7 +263,7 @@ class Check:
     def replay_path(self, tag):
         d = os.path.join(ROOT, "replays")
         os.makedirs(d, exist_ok=True)
-        return os.path.join(d, f"{self.prop}-{self.seed}-{tag}.json")
+        return os.path.join(d, ("replayed-" if self.replay_payload is not None else "") + f"{self.prop}-{self.seed}-{tag}.json")
 
     def violation(self, what, payload, found_input=True, tag=None):
         p = self.replay_path(tag or str(len(self.violations)))
@@ -281,9 +282,10 @@ class Check:
               "violations": len(self.violations)}
         if self.broken:
             ev["coverage"]["broken"] = self.broken
-        os.makedirs(os.path.join(ROOT, "evidence"), exist_ok=True)
-        with open(os.path.join(ROOT, "evidence", f"{self.prop}.json"), "w") as f:
-            json.dump(ev, f, indent=1, default=str)
+        if self.replay_payload is None:
+            os.makedirs(os.path.join(ROOT, "evidence"), exist_ok=True)
+            with open(os.path.join(ROOT, "evidence", f"{self.prop}.json"), "w") as f:
+                json.dump(ev, f, indent=1, default=str)
         if self._impl:
             self._impl.close()
         for fid, what in self.known:
@@ -295,6 +297,9 @@ class Check:
             rel = os.path.relpath(p, ROOT)
             print(f"VIOLATION property={self.prop} replay={rel}" + ("" if found else " no-failing-input-found"))
             return 1
+        if self.replay_payload is not None:
+            print(f"OK property={self.prop} replay: the recorded input no longer fails ({self.cov['evaluations']} evaluations)")
+            return 0
         print(f"OK property={self.prop} tier={self.tier} seed={self.seed} evaluations={self.cov['evaluations']} "
               f"obligations={self.cov['discharged']}/{self.cov['obligations']} wall={wall:.1f}s")
         return 0
